@@ -137,7 +137,9 @@ func (c04) Run(e *Env) {
 	}
 
 	names := []string{"c04.a", "c04.b", "c04.t"}
-	tagsets := [][]string{nil, {"env:prod"}, {"gsd_histogram:10_20_50"}, {"gsd_histogram:x"}, {"gsd_histogram:"}, {"gsd_histogram:5__9", "az:a"}, {"gsd_histogram:-1_0_+Inf"}, {"gsd_histogram:1_2_3_4_5_6"}, {"gsd_histogram:NaN_10"}, {"gsd_histogram:10_NaN_5"}, {"gsd_histogram:-Inf_Inf_7"}, {"gsd_histogram:30_10_20"}}
+	tagsets := [][]string{nil, {"env:prod"}, {"gsd_histogram:10_20_50"}, {"gsd_histogram:x"}, {"gsd_histogram:"}, {"gsd_histogram:5__9", "az:a"}, {"gsd_histogram:-1_0_+Inf"}, {"gsd_histogram:1_2_3_4_5_6"}, {"gsd_histogram:NaN_10"}, {"gsd_histogram:10_NaN_5"}, {"gsd_histogram:-Inf_Inf_7"}, {"gsd_histogram:30_10_20"},
+		// tags of unusual shape, all accepted by the lexer
+		{"_:canary", "env:prod"}, {"__:x"}, {":novalue-key"}, {"nokey:"}, {":"}, {"_"}, {"a:b:c", "host:h", "s:x"}, {"=", "a=b:c d", "q:\"\\"}}
 	specials := []float64{0, -0.0, 1, -1, 1e300, -1e300, 5e-324, math.Inf(1), math.Inf(-1), math.NaN(), math.MaxFloat64, 4294967296, 9.223372036854776e18}
 	persistedTimer, persistedHist := false, false
 	nFlushes := 0
